@@ -251,7 +251,7 @@ func (c *checkCtx) check() int {
 			return 2
 		}
 		targets := corpusTargets()
-		reps := 3
+		reps := 4
 		if c.Tier == "thorough" {
 			reps = 6
 		} else {
